@@ -97,7 +97,8 @@ structure CheckOut where
   containers2 : List Str := []           -- second category (implicit / adding forbidden caps)
   volumes : List Str := []
   values : List Str := []                -- offending values, in insertion order (render sorts/dedups)
-  flags : List Str := []                 -- hostNetwork=true …, "user may not be set" …
+  flags : List Str := []                 -- hostNetwork=true …, forbidden annotations, forbidden sysctls
+  extra : List Str := []                 -- further message parts that never decide the verdict
   deriving DecidableEq, Repr
 
 def CheckOut.ok : CheckOut := { allowed := true }
